@@ -23,7 +23,7 @@ def claim(pid, text, note='', technique='contract-based deductive verification: 
 claim('C01', "make_converter's dispatch (which converter, with which arguments, in which precedence) and every try_convert under contract are proved: "
       "a conversion returns iff the class acceptance predicate (written from the documented element-wise rules) holds and returns the specified image; "
       "Converter.convert / from_data are proved against the interface contract. Unbounded in nesting depth, container length, number of members/fields.",
-      note="Not under contract: NestedSequenceConverter / numpy arrays, the scalar table rows themselves (bool has no row: see DESIGN.md findings). DatetimeConverter: stdlib .date()/.time()/combine/fromisoformat assumed.")
+      note="The rows of the scalar table and the type spellings make_converter accepts are decided by BOUNDED run-time contracts (scalar_rows.bounded, buildable.bounded), never counted as proved. Not under contract: NestedSequenceConverter / numpy arrays. DatetimeConverter: stdlib .date()/.time()/combine/fromisoformat assumed.")
 claim('C02', "Kind gates (data_is_sequence / data_is_mapping), the scalar allowed-kinds gate and the dataclass layout gate are proved; every composite passes "
       "each element unchanged to the element converter (acceptance predicates quantify over acc(child, element)), so the embedding-context dimension collapses.")
 claim('C03', "For each converter class, try_convert (returns iff ACC) and collect_errors (None iff ACC) are proved against the SAME acceptance predicate; "
@@ -36,10 +36,11 @@ claim('C05', "into_data of every converter class is proved against its serialisa
       "with the handlers, dataclass output layout / output names / exclusion); FieldSpec.make_field is proved to keep the output name among the input names "
       "for the standard and alias configurations.",
       note="The composed round-trip lemma from_data(into_data(x)) == x is NOT discharged as one obligation: it follows from ser/acc/out clauses per class plus stdlib inverse pairs (assumed). "
-           "Open finding: tuple output of a class with keyword-only fields is not accepted by tuple input.")
+           "BOUNDED: class_roundtrip.bounded (pool dataclass instances over layouts / renaming / aliases) and scalar_rows.bounded. "
+           "Open findings: tuple / struct output includes keyword-only / init=False fields that the same layout refuses on input.")
 claim('C06', "convert is proved to be from_data(into_data(x, None), T); into_data(x, None) keeps interchange scalars; the generated __init__ is proved to convert each "
       "supplied argument with convert(arg, field type); converters that read their own output (Pattern, Enum) are under contract.",
-      note="Per-type fixed-point lemmas (Fraction, Decimal, datetime, paths) rest on assumed stdlib inverse pairs; Range / ValueOrList are not under contract.")
+      note="Per-type fixed points (Fraction, Decimal, datetime, paths, patterns, sets, enum members, dataclass instances, pane.types helpers) are decided by the BOUNDED contract fixed_point.bounded over natively built values; stdlib inverse pairs assumed. Open finding: pane.types.Range is not a fixed point.")
 claim('C07', "Tree-shape postconditions of every composite diagnostic pass: children keyed by exactly the rejected positions/keys, each child equal to the "
       "element converter's own tree, missing/extra exact, union children one per member in order, leaves record the offending value.")
 claim('C09', "modifies-nothing frame condition on every function under contract: a mutating operation is admitted only on a value created inside the function "
